@@ -197,6 +197,19 @@ func judgeC19Inner(rec *stats.Rec, c c19Case) (string, string) {
 		if w, has := witnessReserved(ip, c.Prefix); has && !got {
 			return "contains-reserved|" + netSig(ip, c.Prefix), fmt.Sprintf("network %s contains reserved address %s but IntersectsIANAReserved says false", netSig(ip, c.Prefix), w)
 		}
+		// the same network written with the address as given (host bits not cleared - name constraints carry
+		// address and mask as two byte strings, nothing forces the address to be the network's base)
+		un := n
+		if v4 := ip.To4(); v4 != nil && len(n.IP) == 4 {
+			un.IP = append(net.IP{}, v4...)
+		} else if v4 != nil && len(n.IP) == 16 {
+			un.IP = append(net.IP{}, v4.To16()...)
+		} else {
+			un.IP = append(net.IP{}, ip.To16()...)
+		}
+		if g2 := util.IntersectsIANAReserved(un); g2 != got {
+			return "unmasked-base|" + netSig(ip, c.Prefix), fmt.Sprintf("network %s intersects=%v when written with its base address and %v when written as %s/%d", netSig(ip, c.Prefix), got, g2, c.IP, c.Prefix)
+		}
 		if ip.To4() != nil {
 			if other := util.IntersectsIANAReserved(mkNet(ip, c.Prefix, !c.Mapped)); other != got {
 				return "form|net", fmt.Sprintf("network %s intersects=%v in one form and %v in the other", netSig(ip, c.Prefix), got, other)
@@ -431,6 +444,14 @@ func TestC19(t *testing.T) {
 					bits = 32
 				}
 				nw := mkNet(ip, rapid.IntRange(0, bits).Draw(rt, "prefix"), false)
+				if rapid.IntRange(0, 3).Draw(rt, "hostbits") == 0 {
+					// the constraint as some tools write it: the address as given, host bits and all, plus the mask
+					if v4 := ip.To4(); v4 != nil && len(nw.IP) == 4 {
+						nw.IP = append(net.IP{}, v4...)
+					} else if len(nw.IP) == 16 {
+						nw.IP = append(net.IP{}, ip.To16()...)
+					}
+				}
 				subtrees = append(subtrees, dt.Seq(gen.GNIP(append(append([]byte{}, nw.IP...), nw.Mask...))))
 			}
 			nc := []*dt.Node{dt.Cons(2, 0, subtrees...)}
